@@ -885,6 +885,213 @@ func (g *neoGen) fragLoop() {
 	g.tag("loop")
 }
 
+// ---------------------------------------------------------------------------------------------
+// amplification loops: container-building programs that multiply a value round by round
+
+// ampSpec is the drawn shape of one amplification program (also its canonical description).
+type ampSpec struct {
+	Node    string // container kind of the node built in every round: struct | array | map
+	NodeW   int    // primitive filler slots of every node next to the nested copies
+	Pos     string // where the nested copies sit among the fillers: first | middle | last
+	Leaf    string // container kind of the innermost value
+	LeafW   int    // primitive items in the leaf (0 = with NodeW 0 the tree contains containers only)
+	Method  string // append | setitem | pack | self
+	Fanout  int    // copies of the previous value placed into the new node (1 = a chain)
+	Rounds  int    // 1..48
+	Loop    bool   // rounds as a bounded backward JMP loop instead of unrolled code
+	Keep    bool   // previous values stay on the stack below the new one
+	Copies  int    // final phase: the value is APPENDed this many times to a fresh array
+	Use     string // what happens to the final value
+	Cloning bool   // every round deep-copies the previous value (struct operand of APPEND / SETITEM)
+}
+
+// wideNonLast: a struct node with more than a handful of fillers whose nested struct is followed by
+// fillers, deep-copied in every round - the shape whose size the clone counter cannot bound while
+// it is compared with MAX_CLONE_LENGTH only on entry to a struct (finding keyCloneCount).
+func (sp ampSpec) wideNonLast() bool {
+	return sp.Node == "struct" && sp.Cloning && sp.NodeW > 3 && sp.Pos != "last"
+}
+
+func (g *neoGen) newContainer(kind string, n int) {
+	switch kind {
+	case "struct":
+		g.a.pushI(int64(n)).op(vm.NEWSTRUCT)
+	case "array":
+		g.a.pushI(int64(n)).op(vm.NEWARRAY)
+	default:
+		g.a.op(vm.NEWMAP)
+		for i := 0; i < n; i++ {
+			g.a.op(vm.DUP).pushI(int64(i)).pushI(0).op(vm.SETITEM)
+		}
+	}
+}
+
+var (
+	ampNodeWidths = []int{0, 0, 0, 0, 0, 0, 1, 2, 3, 16, 255, 1023, 1024, 1024, 1024}
+	ampLeafWidths = []int{0, 0, 0, 0, 0, 0, 1, 2, 3, 16, 255, 1023, 1024, 1024, 1024}
+)
+
+// genAmp emits: leaf; rounds x { [.. s] -> [.. t] with t holding Fanout copies of / references to s
+// among NodeW fillers }; optionally Copies x APPEND of the result to a fresh array.
+// Structs are value types (APPEND and SETITEM deep-copy a struct operand), arrays and maps are
+// shared, so depending on the drawn kinds the value is a tree whose size multiplies per round
+// (bounded only by the clone-length / array-size guards) or a DAG of `rounds` nodes whose
+// unfolded size multiplies (bounded by the guards of whoever traverses it).
+func (g *neoGen) genAmp() ampSpec {
+	kinds := []string{"struct", "struct", "array", "map"}
+	sp := ampSpec{Node: pick(g.t, kinds, "ampnode"), Fanout: pick(g.t, []int{1, 1, 2, 2, 2, 3, 4}, "ampfan"),
+		Rounds: g.intn(1, 48, "amprounds"), Loop: g.chance(40, "amploop"), Keep: g.chance(25, "ampkeep"),
+		NodeW: pick(g.t, ampNodeWidths, "ampnodew"), LeafW: pick(g.t, ampLeafWidths, "ampleafw"),
+		Pos: pick(g.t, []string{"first", "middle", "last"}, "amppos")}
+	sp.Leaf = sp.Node
+	if g.chance(35, "ampleafother") {
+		sp.Leaf = pick(g.t, kinds, "ampleaf")
+	}
+	if g.chance(35, "ampcopies") {
+		sp.Copies = g.intn(1, 32, "ampcopiesn")
+	}
+	switch sp.Node {
+	case "struct":
+		sp.Method = pick(g.t, []string{"append", "setitem", "setitem", "self", "pack"}, "ampm")
+	case "array":
+		sp.Method = pick(g.t, []string{"append", "setitem", "pack"}, "ampm")
+	default:
+		sp.Method = "setitem"
+	}
+	sp.Use = pick(g.t, []string{"result", "result", "drop", "serialize", "notify", "size", "roundtrip"}, "ampuse")
+	// what the code can express cheaply (a filler costs one NEWSTRUCT/NEWARRAY operand, but 3-4 opcodes when
+	// it has to be appended, pushed or set one by one)
+	if sp.Leaf == "map" && sp.LeafW > 16 {
+		sp.LeafW = 16
+	}
+	switch {
+	case sp.Method == "self":
+		sp.Leaf, sp.NodeW, sp.Pos = "struct", 0, "last" // appending an array or a map to itself would be a cycle, which is not the subject here
+	case sp.Node == "map":
+		if sp.NodeW > 16 {
+			sp.NodeW = 16
+		}
+	case sp.Method == "pack":
+		if sp.NodeW > 3 {
+			sp.NodeW = 3
+		}
+	case sp.Method == "append" && sp.NodeW > 3:
+		sp.Pos = "last"
+	}
+	if sp.NodeW+sp.Fanout > 1024 {
+		sp.NodeW = 1024 - sp.Fanout
+	}
+	pre := map[string]int{"first": 0, "middle": sp.NodeW / 2, "last": sp.NodeW}[sp.Pos]
+	post := sp.NodeW - pre
+	// struct nodes filled by APPEND / SETITEM: from the second round on the operand is a struct, which is deep-copied
+	sp.Cloning = sp.Node == "struct" && sp.Method != "pack"
+
+	g.newContainer(sp.Leaf, sp.LeafW) // [s]
+	body := func() {
+		switch sp.Method {
+		case "append": // t = new(pre); Fanout x t.append(s); post x t.append(false)
+			g.newContainer(sp.Node, pre) // [s t]
+			for i := 0; i < sp.Fanout; i++ {
+				g.a.op(vm.DUP).pushI(2).op(vm.PICK, vm.APPEND)
+			}
+			for i := 0; i < post; i++ {
+				g.a.op(vm.DUP).pushI(0).op(vm.APPEND)
+			}
+		case "setitem": // t = new(NodeW + Fanout); t[pre+i] = s
+			if sp.Node == "map" {
+				g.a.op(vm.NEWMAP)
+				for i := 0; i < sp.NodeW+sp.Fanout; i++ {
+					if i < pre || i >= pre+sp.Fanout {
+						g.a.op(vm.DUP).pushI(int64(i)).pushI(0).op(vm.SETITEM)
+					}
+				}
+			} else {
+				g.newContainer(sp.Node, sp.NodeW+sp.Fanout)
+			}
+			for i := 0; i < sp.Fanout; i++ {
+				g.a.op(vm.DUP).pushI(int64(pre + i)).pushI(3).op(vm.PICK, vm.SETITEM)
+			}
+		case "self": // s.append(s): a struct operand is copied first, so no cycle - the value doubles in place
+			for i := 0; i < sp.Fanout-1 || i == 0; i++ {
+				g.a.op(vm.DUP, vm.DUP, vm.APPEND)
+			}
+			g.a.op(vm.DUP) // [s s]: the common tail below drops or keeps one reference
+		default: // pack: fillers and Fanout references to s in a new array (wrapped in a struct for struct nodes)
+			for i := 0; i < post; i++ { // PACK pops item 0 first: push in reverse order
+				g.a.pushI(0)
+			}
+			for i := 0; i < sp.Fanout; i++ {
+				g.a.pushI(int64(post + i)).op(vm.PICK)
+			}
+			for i := 0; i < pre; i++ {
+				g.a.pushI(0)
+			}
+			g.a.pushI(int64(sp.NodeW + sp.Fanout)).op(vm.PACK) // [s t]
+			if sp.Node == "struct" {
+				g.a.pushI(0).op(vm.NEWSTRUCT, vm.DUP, vm.ROT, vm.APPEND)
+			}
+		}
+		if !sp.Keep {
+			g.a.op(vm.NIP)
+		}
+	}
+	if sp.Loop {
+		g.loop(int64(sp.Rounds), body)
+	} else {
+		for i := 0; i < sp.Rounds; i++ {
+			body()
+		}
+	}
+	if sp.Copies > 0 { // [.. s] -> [.. s a] with a = Copies x (copy of / reference to) s
+		g.a.pushI(0).op(vm.NEWARRAY)
+		cp := func() { g.a.op(vm.DUP).pushI(2).op(vm.PICK, vm.APPEND) }
+		if sp.Loop {
+			g.loop(int64(sp.Copies), cp)
+		} else {
+			for i := 0; i < sp.Copies; i++ {
+				cp()
+			}
+		}
+	}
+	switch sp.Use {
+	case "drop":
+		g.a.op(vm.DROP)
+	case "serialize":
+		g.a.syscall("System.Runtime.Serialize")
+	case "roundtrip":
+		g.a.syscall("System.Runtime.Serialize").syscall("System.Runtime.Deserialize")
+	case "notify":
+		g.a.syscall("System.Runtime.Notify")
+	case "size":
+		g.a.op(vm.ARRAYSIZE)
+	}
+	return sp
+}
+
+// genAmpProgram draws one amplification program.
+func genAmpProgram(t *rapid.T) ([]byte, ampSpec) {
+	g := &neoGen{t: t, a: &asm{}, tags: map[string]bool{}}
+	sp := g.genAmp()
+	return g.a.b, sp
+}
+
+// cloneChainCode is the witness of finding keyCloneCount: s = NEWSTRUCT(1024); d x { t = NEWSTRUCT(1024);
+// t[0] = s; s = t } - SETITEM deep-copies s, 1025 x depth items, although MAX_CLONE_LENGTH is 1024 -
+// then a = []; c x a.append(s) - each APPEND copies the whole chain again - and one service call
+// (at which the worker's probe counts the live items of the node's own engine).
+func cloneChainCode(d, c int) []byte {
+	a := &asm{}
+	a.pushI(1024).op(vm.NEWSTRUCT)
+	for i := 0; i < d; i++ {
+		a.pushI(1024).op(vm.NEWSTRUCT, vm.DUP).pushI(0).pushI(3).op(vm.PICK, vm.SETITEM, vm.NIP)
+	}
+	a.pushI(0).op(vm.NEWARRAY)
+	for i := 0; i < c; i++ {
+		a.op(vm.DUP).pushI(2).op(vm.PICK, vm.APPEND)
+	}
+	return a.syscall("System.Runtime.GetTime").b
+}
+
 // genProgram draws one program.
 func genProgram(t *rapid.T, methods map[string][]string, noCycleEnc, noDeepEq bool) (code []byte, tags []string, excluded int) {
 	g := &neoGen{t: t, a: &asm{}, methods: methods, noCycleEnc: noCycleEnc, noDeepEq: noDeepEq, tags: map[string]bool{}, big: harn.Thorough()}
